@@ -1021,10 +1021,20 @@ func (c1 ratConst) representedBy(typ reflect.Type) (constant, error) {
 	if k := typ.Kind(); reflect.Int <= k && k <= reflect.Uintptr {
 		return nil, fmt.Errorf("constant %s truncated to integer", c1)
 	}
-	if f, ok := c1.r.Float64(); ok {
-		return float64Const(f).representedBy(typ)
+	// Round once: going through a 512 bit float would round twice.
+	switch typ.Kind() {
+	case reflect.Float32, reflect.Complex64:
+		if f, _ := c1.r.Float32(); !math.IsInf(float64(f), 0) {
+			return float64Const(f), nil
+		}
+	case reflect.Float64, reflect.Complex128:
+		if f, _ := c1.r.Float64(); !math.IsInf(f, 0) {
+			return float64Const(f), nil
+		}
+	default:
+		return nil, errNotRepresentable
 	}
-	return newFloatConst(0).setRat(c1.r).representedBy(typ)
+	return nil, fmt.Errorf("constant %s overflows %s", c1, typ)
 }
 
 func (c1 ratConst) zero() bool {
